@@ -316,6 +316,15 @@ func Families(tier string) []Family {
 			c = WithHelp(c, "help")
 			f.Defs = append(f.Defs, Def{Cfg: c, Tokens: Ts("--opt", "--alt", "--other=x", "w", "plain", "help", "--wo", "x"), L: lim(tier, 3, 4)})
 		}
+		// bundles: every letter of a bundle is given, also when an earlier letter of the same bundle looked ahead at the
+		// next token (an optional-value or multi-value letter followed by another bundle)
+		{
+			c := Cfg{Mode: 1}
+			c.Nodes = []NodeCfg{rootNode(0, false)}
+			y := opt("incr", "y", 1, "yy")
+			c.Opts = []OptCfg{opt("sopt", "o", 1, "p"), opt("bool", "b", 1, "bb"), opt("bool", "x", 1), y, multi("sslice", "l", 1, 1, 2, "ll")}
+			f.Defs = append(f.Defs, Def{Cfg: c, Tokens: Ts("-ob", "-pb", "-xy", "-xyy", "-lb", "-bl", "one", "-b", "--bb"), L: lim(tier, 3, 4)})
+		}
 		// Called / CalledAs through the environment: only true/false (any case) count for a bool
 		for _, ev := range []string{"1", "t", "True", "0", "FALSE", "yes"} {
 			for _, defb := range []bool{false, true} {
@@ -584,6 +593,10 @@ func Families(tier string) []Family {
 				}
 				c = WithHelp(c, "help", "?")
 				f.Defs = append(f.Defs, Def{Cfg: c, Tokens: toks, L: lim(tier, 2, 3), Comp: true})
+				if variant == 0 {
+					// the help command of every level offers that level's commands as topics (none at a leaf)
+					f.Defs = append(f.Defs, Def{Cfg: c, Tokens: Ts("log", "show", "sub", "help", "h", "s", "l", ""), L: lim(tier, 3, 4), Comp: true})
+				}
 			}
 		}
 		fams = append(fams, f)
